@@ -1,5 +1,5 @@
 (* C06 — Only sender-authorised transactions execute, each exactly once. *)
-From Evm Require Import TxPipe TxPipeProofs.
+From Evm Require Import TxPipe TxPipeExt TxPipeProofs TxPipeDenom TxPipeDenomProofs.
 Open Scope Z_scope.
 
 (* whatever passes admission (in any later outcome class) is replay-protected, recovers to the declared sender
@@ -64,4 +64,44 @@ Example C06_example_replay_after_failure :
   map r_out (snd (run sg [Eth okc (mkOut 26000 false 0 [] 0 false); Eth okc o])) = [BlockGasExceeded; Dropped] /\
   sqn (fst (run s [Eth crea o; Eth crea o])) 7 = 1 /\
   sqn (fst (run sg [Eth okc (mkOut 26000 false 0 [] 0 false); Eth okc o])) 7 = 1.
+Proof. vm_compute. repeat split; reflexivity. Qed.
+
+(* ------------------------------------------------------------------ executions aborted by a panic (Model/TxPipeExt.v)
+   "Each accepted transaction advances the sender's nonce by exactly one - also when execution later fails": the ante
+   handler's increment stays when runTx recovers the panic (the handler's undoing of it is in the dropped message cache) *)
+Theorem C06_aborted_accepted_authorised : forall s t gu,
+  passed (r_out (snd (deliver_panic s t gu))) = true -> blk_out_of_gas s = false /\ admitted s t.
+Proof. exact panic_passed_admitted. Qed.
+Print Assumptions C06_aborted_accepted_authorised.
+
+Theorem C06_aborted_nonce_plus_one : forall s t gu a,
+  sqn (fst (deliver_panic s t gu)) a =
+  sqn s a + (if passed (r_out (snd (deliver_panic s t gu))) && (a =? t_from t) then 1 else 0).
+Proof. exact panic_sqn. Qed.
+Print Assumptions C06_aborted_nonce_plus_one.
+
+(* over any history containing executed, failed and aborted Ethereum transactions and Cosmos transactions *)
+Theorem C06_x_sequence_monotone : forall l s a, sqn (d_core s) a <= sqn (d_core (xfinal s l)) a.
+Proof. exact xsqn_monotone. Qed.
+Print Assumptions C06_x_sequence_monotone.
+
+Theorem C06_x_no_replay : forall l s pre x mid y post,
+  xtrace s l = pre ++ x :: mid ++ y :: post ->
+  let '(_, tx, _, rx) := x in let '(_, ty, _, ry) := y in
+  t_from tx = t_from ty -> t_nonce tx = t_nonce ty ->
+  passed (r_out rx) = true -> passed (r_out ry) = false.
+Proof. exact x_no_replay. Qed.
+Print Assumptions C06_x_no_replay.
+
+(* non-vacuity: a transfer to a module account is aborted; its replay (as an ordinary execution or aborted again) is
+   refused with invalid sequence; the sequence ends at 1 *)
+Example C06_example_replay_after_abort :
+  let c := mkSt (fun a => if a =? 7 then 10^18 else 0) (fun _ => 0) (fun a => a =? 7) (fun _ => false)
+                (5 * 10^18) 1000 0 0 0 0 0 0 false false in
+  let s := mkDst c (mkLedger (fun _ _ => 0) (fun _ => 0)) in
+  let t := mkTx 7 (Some 7) true false 2000 0 0 30000 0 5 false 21000 in
+  let o := mkOut 21000 false 0 [(7, -5); (8, 5)] 0 false in
+  map r_out (snd (xrun s [XPanic t 0; XItem (DEth t o (mkDx [] [])); XPanic t 0])) =
+    [CoreErr; RejAnte E_INVALID_SEQUENCE; RejAnte E_INVALID_SEQUENCE] /\
+  sqn (d_core (xfinal s [XPanic t 0; XItem (DEth t o (mkDx [] [])); XPanic t 0])) 7 = 1.
 Proof. vm_compute. repeat split; reflexivity. Qed.
